@@ -4,6 +4,8 @@ sys.path.insert(0, os.path.dirname(os.path.abspath(__file__)))
 from common import *
 import struct_scan
 
+QUERY_OPS = ("query", "cquery", "tquery")
+
 def gen_history(rng, n):
     ops = [["unit", "length"], ["unit", "length"]]
     dims = ["length", "length"]
@@ -36,7 +38,7 @@ def gen_history(rng, n):
 
 def fresh_replay(ops, t):
     """the declarations before query t, then only that query, in a fresh process"""
-    sub = [o for o in ops[:t] if o[0] != "query"] + [ops[t]]
+    sub = [o for o in ops[:t] if o[0] not in QUERY_OPS] + [ops[t]]
     r = impl("memo_worker.py", {"ops": sub})
     return r["results"][-1]
 
@@ -119,13 +121,30 @@ Proof. vm_compute. reflexivity. Qed.
         return ops
     for earlier in ([], [(0, 4)], [(0, 5), (5, 4)], [(4, 0)], [(1, 4)], [(2, 1), (1, 4), (4, 5), (3, 4)], [(3, 4), (2, 4)], [(0, 3)], [(2, 4), (0, 1)]):
         hists.append(fam(earlier))
+    # scales with a zero point (translate) reached through a base unit, converted directly, inside compound units (per-degree) and from
+    # a long-lived second thread: the memoised paths and plans are shared objects, and every thread sees the same declarations
+    def scale_history(rng, threaded):
+        m_ = lambda v: ["float", str(Fraction(v).numerator), str(Fraction(v).denominator)] if Fraction(v).denominator != 1 else ["int", str(v), "1"]
+        ops = [["unit", "temperature"], ["unit", "temperature"], ["unit", "length"], ["unit", "length"]]     # 0 base B, 1 third T, 2 metre-like, 3 foot-like
+        ops += [["equals", 1, 1, m_(rng.choice([2, 4, 0.5])), 0, 1], ["equals", 3, 1, m_(rng.choice([2, 8])), 2, 1], ["scale", 0, m_(rng.choice([10, 32, 0.5]))]]   # 4 scale S over B
+        direct = ["query", "in_unit", m_(rng.choice([36, 5, 100])), 4, 1, 1, 1]
+        per = ["cquery", m_(rng.choice([3, 7])), [[2, 1], [4, -1]], [[3, 1], [1, -1]]]
+        back = ["query", "in_unit", m_(36), 1, 1, 4, 1]
+        seq = [direct, per, direct, back, per, direct] if rng.random() < 0.5 else [per, direct, back, direct]
+        if threaded:
+            seq = [["tquery", m_(1), 4, 1, 1, 1]] + seq[:2] + [["tquery", m_(36), 4, 1, 1, 1], direct, ["tquery", m_(36), 4, 1, 1, 1]]
+            # a conversion tried from the second thread before its equivalence is declared, declared by the main thread, tried again
+            ops += [["unit", "length"], ["tquery", m_(1), 5, 1, 2, 1], ["equals", 5, 1, m_(2), 2, 1], ["tquery", m_(1), 5, 1, 2, 1], ["query", "in_unit", m_(1), 5, 1, 2, 1], ["tquery", m_(1), 5, 1, 2, 1]]
+        return ops + seq
+    for k_ in range(10 if c.tier == "quick" else 80):
+        hists.append(scale_history(c.rng, threaded=(k_ % 2 == 1)))
     for _ in range(40 if c.tier == "quick" else 500):
         hists.append(cyc_history(c.rng))
     with concurrent.futures.ThreadPoolExecutor(16) as ex:
         full = list(ex.map(lambda h: impl("memo_worker.py", {"ops": h}), hists))
         jobs = []
         for hi, (h, r) in enumerate(zip(hists, full)):
-            qs = [i for i, o in enumerate(h) if o[0] == "query"]
+            qs = [i for i, o in enumerate(h) if o[0] in QUERY_OPS]
             if not qs: continue
             pick = set([qs[-1]] + c.rng.sample(qs, min(len(qs), 3 if c.tier == "quick" else 6)))
             for t in sorted(pick):
@@ -148,8 +167,8 @@ Proof. vm_compute. reflexivity. Qed.
         last = {}
         ndecl = 0
         for i, (o, a) in enumerate(zip(h, r["results"])):
-            if o[0] == "equals": ndecl += 1
-            if o[0] == "query":
+            if o[0] in ("equals", "scale"): ndecl += 1
+            if o[0] in QUERY_OPS:
                 key = (json.dumps(o), ndecl)
                 if key in last and last[key] != a:
                     c.violation("unrepeatable:" + json.dumps(o), f"repeating {o} with no declaration in between gave {last[key]} then {a}", {"history": h[:i + 1]})
@@ -165,9 +184,9 @@ Proof. vm_compute. reflexivity. Qed.
         ops, expect, table = [], [], []
         nd = 0
         for i, o in enumerate(h):
-            if o[0] == "equals":
+            if o[0] in ("equals", "scale"):
                 ops.append(f"Declare {cnat(nd)}"); nd += 1; expect.append("None")
-            elif o[0] == "query" and i in ts:
+            elif o[0] in QUERY_OPS and i in ts:
                 q = qid.setdefault(json.dumps(o), len(qid))
                 ops.append(f"Query {cnat(q)}")
                 got, fr = answers[(hi, i)]
